@@ -161,4 +161,11 @@ def same(ctx, rep):
 def run(ctx):
     rep = ctx.rep
     same(ctx, rep)
+    # "a key exported by one back end loads in the other with the same public key and algorithm": the loader / cascade
+    # / generator tables of both back ends (arm by arm, and ring = aws-lc-rs) are necessary conditions of it
+    import c11
+    tabs = {}
+    for cfg in ("K1", "K2"):
+        crate = ctx.crate(cfg)
+        common.borrow_rules(rep, lambda: (c11.check_pairs(cfg, crate, rep, tabs), c11.check_generate(cfg, crate, rep)), "C11.", "C16.keys")
     matrix(ctx, rep)
